@@ -10,6 +10,7 @@ Driver for C33 (repair index). Records per case (ids are 16-hex-digit prefixes):
   idx <id> ok|bad <nblobs> <keepable>            stored index file
   ie <idx> <pack> <typ> <blob> <off> <len> <ulen>
   res ok|err|panic <hex stderr>
+  glitch <n>                         the first load of every pack file delivered one flipped bit (n loads hit)
   tr save|remove index|data|snapshot <id> ok|fail     backend mutations of the command, in order
   postpack <id> <size>
   postidx <id> ok|bad
@@ -82,7 +83,13 @@ def handle (c : Case) : Verdict :=
       if !ghost.isEmpty then "C33:entry-for-missing-pack"
       else match bad.head? with
         | some p =>
-          if p.hdr.isNone then "C33:entry-for-unreadable-pack"
+          let glitched := match c.find "glitch" with | some g => g.getD 1 "0" != "0" | none => false
+          let twin := r.packs.any fun q => q.id != p.id && p.hdr.isSome && q.hdr == p.hdr
+          if glitched && p.hdr.isSome && (entriesOf post p.id).isEmpty then
+            "C33:transient-read-fault:readable-pack-missing-from-index"
+          else if twin && !readAll && (entriesOf post p.id).isEmpty then
+            "C33:twin-packs:entries-of-one-pack-dropped"
+          else if p.hdr.isNone then "C33:entry-for-unreadable-pack"
           else if readAll then "C33:readall:index-differs-from-header"
           else if trustedPack r p then "C33:default:trusted-pack-entries-changed-or-wrong"
           else "C33:default:reread-pack-differs-from-header"
@@ -140,7 +147,9 @@ def handle (c : Case) : Verdict :=
     (if m.removed.isEmpty then ["nothing-removed"] else []) ++
     (if orderDep then ["order-dependent"] else []) ++
     (if !readAll && !trustedCorrect r then ["trusted-wrong-entry"] else []) ++
-    (if r.idxs.any (·.content.isNone) then ["undecodable-index"] else [])
+    (if r.idxs.any (·.content.isNone) then ["undecodable-index"] else []) ++
+    (match c.find "glitch" with | some g => if g.getD 1 "0" == "0" then ["glitch-armed"] else ["transient-read-glitch"] | none => []) ++
+    (if r.packs.any (fun p => r.packs.any fun q => p.id != q.id && p.hdr.isSome && p.hdr == q.hdr) then ["twin-packs"] else [])
   .agree (!m.trace.isEmpty) labels
 
 end C33
